@@ -55,7 +55,7 @@ class Rec:
         self.error = None
 
     # an obligation: "pc /\ bad is unsatisfiable"
-    def refute(self, ctx, bad, label, viol_fn=None, reach_probe=True):
+    def refute(self, ctx, bad, label, viol_fn=None, reach_probe=True, timeout_ms=None):
         self.obligations += 1
         if reach_probe and self.reach < 3:
             # reachability twin: the same harness with claim False must be
@@ -67,7 +67,7 @@ class Rec:
             return "unsat"
         if bad is True:
             bad = z3.BoolVal(True)
-        r = ctx.check(bad)
+        r = ctx.check(bad, timeout_ms=timeout_ms)
         if r == "unsat":
             self.discharged += 1
         elif r == "sat":
@@ -82,6 +82,30 @@ class Rec:
         else:
             self.inconclusive += 1
         return r
+
+    def refute_identity(self, ctx, bad, label, viol_fn=None):
+        """Like refute, but first tries to discharge `bad` WITHOUT the path
+        condition (a universally valid identity holds on every path); falls
+        back to the query under the path condition."""
+        if bad is False or bad is True:
+            return self.refute(ctx, bad, label, viol_fn)
+        import time as _t
+
+        s2 = z3.Solver()
+        s2.set("timeout", 3000)
+        s2.add(bad)
+        t0 = _t.perf_counter()
+        r = s2.check()
+        ctx.nq += 1
+        ctx.solver_s += _t.perf_counter() - t0
+        if r == z3.unsat:
+            ctx.n_unsat += 1
+            self.obligations += 1
+            self.discharged += 1
+            if self.reach < 3:
+                self.reach += 1  # the assertion was reached on a followed path
+            return "unsat"
+        return self.refute(ctx, bad, label, viol_fn)
 
     def _keep(self, v):
         """keep counterexamples for replay: separate caps for those that claim
